@@ -64,7 +64,7 @@ var universe = []string{
 	"http://g.example/m;v=1/n,o?s=1;t=2", // sub-delimiters a URL carries unescaped: ';' is not a legal byte of a cookie value
 	"http://k;l@g.example:81/p;q",
 	"http://h.example:8080/app?filter=\"eu\"&dir=C:\\srv&dc=z\u00fcrich", // a query carries '"', '\\' and non-ASCII bytes verbatim: no legal bytes of a cookie value
-	"https://a.example:8080/app", // entry 0 over TLS: the scheme alone tells the two servers apart
+	"https://a.example:8080/app",                                         // entry 0 over TLS: the scheme alone tells the two servers apart
 }
 
 var salts = map[int64]string{1: "s1-salt", 2: "other-salt!", 3: "foreign-salt"}
@@ -101,7 +101,7 @@ func decCodec(l []int64, fuel int) (*codecT, []int64, bool) {
 		}
 		return &codecT{kind: 1, p: l[1]}, l[2:], true
 	case 2:
-		if len(l) < 3 || keys[l[1]] == nil || l[2] < 0 {
+		if len(l) < 3 || keys[l[1]] == nil {
 			return nil, l, false
 		}
 		return &codecT{kind: 2, p: l[1], ttl: l[2]}, l[3:], true
@@ -366,7 +366,7 @@ func (c *stickyComp) Gen(rng *rand.Rand, idx int, tier string, targeted bool) hl
 					continue // one AES key is never used by two leaves of a chain (with and without TTL)
 				}
 				usedKeys[k] = true
-				ttl := hlib.Pick(rng, 0, 2e9, 5e9, 1500e6, 60e9, 631152000e9) // the last: 20 years, an expiry past January 2038
+				ttl := hlib.Pick(rng, 0, -1, -3600e9, 2e9, 5e9, 1500e6, 60e9, 631152000e9) // the last: 20 years, an expiry past January 2038
 				if targeted && rng.Intn(2) == 0 {
 					ttl = hlib.Pick(rng, 2e9, 1500e6, 5e9)
 				}
@@ -572,6 +572,9 @@ func (c *stickyComp) Run(h *hlib.History) (mons []hlib.Mon, ok bool) {
 		if poolMember != "" { // the rewrite listener has mapped the request under the chosen server's URL
 			routedURL, poolMember = poolMember, ""
 		}
+		// the handler finishes the URL it was handed in place (as a forwarder's director does on its own request): the
+		// request's URL is the request's, never the pool's
+		req.URL.Path, req.URL.RawQuery, req.URL.Fragment = req.URL.Path+"/page", "i=1", ""
 		w.WriteHeader(200)
 	})
 	// in half of the histories a request rewrite listener maps the resource path under the URL of the server chosen (what
